@@ -133,6 +133,8 @@ type judge struct {
 	names []string // lower-case names to look at
 	pre   func(k string) []string
 	dev   func(k string, ideal []string, renamed bool) string
+	// class: recorded known-finding class of a deviation on name k, decided from the input alone ("" if none)
+	class func(k string, ideal []string) string
 	got   *rig.Msg
 	model map[string][]string
 	// fixed: names whose value at the hop is known without the model (Host = the request's authority)
@@ -167,6 +169,8 @@ func (j *judge) run() {
 		class := ""
 		if afterRename {
 			class = "rule-after-rename"
+		} else if j.class != nil {
+			class = j.class(k, ideal)
 		}
 		if sameVals(got, ideal) {
 			j.ctx.Count("hop/" + j.hc.Side + "/as-documented")
@@ -560,13 +564,32 @@ func hopConnect(ctx *core.Ctx, e *hopEnv, hc *hopCase, rules header.Headers) {
 		}
 		return in[k]
 	}
+	// F47 (connect-header-second-pass-overwrites): the list is applied twice, to the client's CONNECT header
+	// and, by GetProxyConnectHeader, to an EMPTY header that dialvia then copies over the first key by key.
+	// The class is decided from the input alone: the second pass yields values for the name (a 'name:value'
+	// rule is the last word on it there) and they are not what the documented meaning gives for what the
+	// CONNECT carries under the name when the rules run (a field the client sent, or the proxy's own Via).
+	secondPass := func(k string, ideal []string) bool {
+		again, _, _ := applySpec(rules, k, nil)
+		return len(again) > 0 && !sameVals(again, ideal)
+	}
+	j.class = func(k string, ideal []string) string {
+		if secondPass(k, ideal) {
+			return "connect-header-second-pass-overwrites"
+		}
+		return ""
+	}
 	j.dev = func(k string, ideal []string, renamed bool) string {
 		switch k {
 		case "host":
 			return "host-is-written-from-the-request-target"
 		case "content-length", "transfer-encoding", "trailer":
 			return "framing-is-written-by-net-http"
-		case "user-agent":
+		}
+		if secondPass(k, ideal) {
+			return "" // the proxy's own code, not the library: judged against the documented meaning (F47)
+		}
+		if k == "user-agent" {
 			if len(ideal) > 1 {
 				return "user-agent-first-value-only"
 			}
@@ -574,15 +597,52 @@ func hopConnect(ctx *core.Ctx, e *hopEnv, hc *hopCase, rules header.Headers) {
 				return "empty-user-agent-is-not-written"
 			}
 		}
-		// the list is applied twice: to the client's CONNECT header and, by GetProxyConnectHeader, to an
-		// empty header that is then copied over the first key by key
-		if again, _, _ := applySpec(rules, k, nil); len(again) > 0 && !sameVals(again, ideal) {
-			return "connect-rules-applied-to-an-empty-header-overwrite-the-key"
-		}
 		return ""
 	}
 	j.compareModel("CONNECT received by the upstream proxy = Model.Req.processConnect (with the connect rule list)")
 	j.run()
+	// both passes of the connect list over the header the rules saw (recorded in front of them):
+	// Model.C16.connectHeadMap, for the names the list touches (lines net/http writes itself aside)
+	if e.via != "rig" {
+		return
+	}
+	v, ok := e.snaps.LoadAndDelete("connect")
+	if !ok {
+		ctx.Disagree("the user supplied request modifiers run for a relayed CONNECT", hc, impl, "modifier was called")
+		return
+	}
+	var ruleHex []string
+	for _, s := range hc.ConnRules {
+		ruleHex = append(ruleHex, core.HexS(s))
+	}
+	ans := ctx.Model.MustAsk("C16", "connecthead", core.JoinList(ruleHex), encMap(map[string][]string(v.(http.Header))))
+	if !strings.HasPrefix(ans, "ok ") {
+		ctx.Disagree("CONNECT head = Model.C16.connectHeadMap", hc, impl, ans)
+		return
+	}
+	want := map[string][]string{}
+	keys := map[string][]string{}
+	mm := decMap(strings.TrimPrefix(ans, "ok "))
+	for k := range mm {
+		keys[strings.ToLower(k)] = append(keys[strings.ToLower(k)], k)
+	}
+	for lk, ks := range keys {
+		sort.Strings(ks) // net/http writes the keys of the map in sorted order
+		for _, k := range ks {
+			want[lk] = append(want[lk], mm[k]...)
+		}
+	}
+	gotMap := ex.Req.FieldMap()
+	ctx.Count("hop/rig/connecthead")
+	for _, k := range j.names {
+		if !touches(rules, k) || writtenByLibrary[k] {
+			continue
+		}
+		if !sameVals(gotMap[k], want[k]) {
+			ctx.Disagree("fields of the CONNECT received by the upstream proxy = Model.C16.connectHeadMap over the header the rules saw",
+				hc, fmt.Sprintf("%s: got %q | %s", k, gotMap[k], impl), fmt.Sprintf("%q", want[k]))
+		}
+	}
 }
 
 // ---- the transport's own CONNECT for an intercepted request ----
